@@ -125,6 +125,7 @@ func (p *Prog) verifyFunc(fi *FuncInfo, spec *FuncSpec, degraded bool, unroll ..
 		addTP(fi.Outer.Sig.RecvTypeParams())
 	}
 	vc.loopOrd = numberLoops(fi.Body())
+	vc.addrTaken = vc.addressTaken(fi.Body())
 	st := &State{vars: map[types.Object]Term{}, heap: map[string]Term{}, alloc: "alloc@0", ghost: map[string]Term{},
 		alias: map[types.Object]*aliasOrigin{}, freshSl: map[types.Object]bool{}, cells: map[types.Object]Term{}}
 	vc.declare("alloc@0", "Int")
